@@ -693,7 +693,15 @@ def g_regex_validated(ctx):
     # Replace<MetaVariable> is only constructed inside parse
     aggs = [(ff, s) for ff, bi, si, s in prog.aggregates_of(r"^ast_grep_config::transform::transformation::Replace$") if ff.crate == "ast_grep_config" and ff.impl_trait is None]
     only_parse = all(ff is f or ff.root == f.id for ff, s in aggs)
-    return ok_field and ok_err and only_parse, "parse compiles self.replace=%s, returns its error=%s, Replace built only in parse=%s" % (ok_field, ok_err, only_parse)
+    # the compile is not optional: wherever parse builds a Replace<MetaVariable>, a Regex::new of parse's own body dominates the
+    # construction ("plain strings need no compilation" guesses which strings are plain)
+    own = [c for c in rn if c.fn is f]
+    always = True
+    if own:
+        for ff, bi, si, st in prog.aggregates_of(r"^ast_grep_config::transform::transformation::Replace$"):
+            if ff is f and bi in f.live_blocks and not any(f.dominates(c.bb, bi) for c in own):
+                always = False
+    return ok_field and ok_err and only_parse and always, "parse compiles self.replace=%s, returns its error=%s, Replace built only in parse=%s, compile dominates the construction=%s" % (ok_field, ok_err, only_parse, always)
 
 
 def _on_nonempty_arm(prog, f, site_blocks):
